@@ -4,6 +4,7 @@ import CbiVerif.Drv.Metrics
 import CbiVerif.Drv.C06
 import CbiVerif.Drv.C06Compose
 import CbiVerif.Drv.C14Compose
+import CbiVerif.Drv.C14Metrics
 import CbiVerif.Drv.Dups
 import CbiVerif.Drv.DbPath
 import CbiVerif.Drv.Exclude
@@ -23,11 +24,13 @@ import CbiVerif.Drv.Order
 import CbiVerif.Drv.Fortran
 import CbiVerif.Drv.C03
 import CbiVerif.Drv.C03Frag
+import CbiVerif.Drv.C03StrConf
 import CbiVerif.Drv.Include
 import CbiVerif.Drv.GitIgnore
 import CbiVerif.Drv.Reach
 import CbiVerif.Drv.WarnMsg
 import CbiVerif.Drv.Engines
+import CbiVerif.Drv.EnginesF
 /-! Native JSON-lines driver: one request object per line, one reply per line.
 Each area registers its ops in `CbiVerif/Drv/<Area>.lean`. -/
 open Lean
@@ -38,6 +41,7 @@ def handlerTable : List (String × (Json → Json)) :=
   CbiVerif.Drv.C06.handlers ++
   CbiVerif.Drv.C06Compose.handlers ++
   CbiVerif.Drv.C14Compose.handlers ++
+  CbiVerif.Drv.C14Metrics.handlers ++
   CbiVerif.Drv.Dups.handlers ++
   CbiVerif.Drv.DbPath.handlers ++
   CbiVerif.Drv.Exclude.handlers ++
@@ -57,11 +61,13 @@ def handlerTable : List (String × (Json → Json)) :=
   CbiVerif.Drv.Fortran.handlers ++
   CbiVerif.Drv.C03.handlers ++
   CbiVerif.Drv.C03Frag.handlers ++
+  CbiVerif.Drv.C03StrConf.handlers ++
   CbiVerif.Drv.Include.handlers ++
   CbiVerif.Drv.GitIgnore.handlers ++
   CbiVerif.Drv.Reach.handlers ++
   CbiVerif.Drv.WarnMsg.handlers ++
-  CbiVerif.Drv.Engines.handlers
+  CbiVerif.Drv.Engines.handlers ++
+  CbiVerif.Drv.EnginesF.handlers
 
 def handle (j : Json) : Json :=
   match j.getObjValAs? String "op" with
